@@ -179,6 +179,14 @@ def corr_sweep_c12(seed=0, tier="quick", cov=None):
     return out
 
 
+def cells_tie():
+    """Market._update_market_price (C08): the mid price and the market price stored for the current time"""
+    import py2coq_cells
+    src = os.path.join(REPO, "pams", "market.py")
+    return _run_tie("translator:pams/market.py(C08 kernel)", src, lambda: py2coq_cells.translate(REPO), "CellsGen.v", "CellsC08Proofs.v",
+                    "CellsGen.")
+
+
 def holdings_sweep_c05(seed=0, tier="quick", cov=None):
     """directed search used with the C05 tie: the real Simulator._update_agents_for_execution on small populations and fill lists
     (self-trades, repeated parties, several markets), against the property text: the buyer pays price x volume and receives volume
